@@ -273,7 +273,11 @@ def main_stridefold(cases):
             if (padded.reshape(new.shape) == new).all():
                 found = l
                 break
+        from ethosu.vela.graph_optimiser_util import needed_total_padding
+        real_pads = [int(needed_total_padding(w, sw, kw)) // 2,
+                     int(needed_total_padding(w // n, int(res.attrs["stride_w"]), new.shape[1])) // 2] if same else [0, 0]
         out.append({"folded": 1, "n": int(n), "s": int(res.attrs["stride_w"]), "l": int(found), "r": int(tot - found) if found >= 0 else -1,
+                    "real_pads": real_pads,
                     "ifm": [int(v) for v in res.ifm_shapes[0].as_list()], "padding": str(res.attrs.get("padding")), "ofm_w": ofm_w, "zp": zp})
     os.rmdir(tmp)
     return out
